@@ -182,6 +182,24 @@ struct PR
     }
 };
 
+// a payload that, while it is being destroyed, lets go of something else it knows about: another,
+// non-empty owning pointer
+struct PX
+{
+    nitro::lang::quaint_ptr* other;
+    explicit PX(nitro::lang::quaint_ptr* o) : other(o)
+    {
+        preg().born(this, 'X');
+    }
+    PX(const PX&) = delete;
+    ~PX()
+    {
+        if (other)
+            other->reset();
+        preg().died(this, 'X');
+    }
+};
+
 // ------------------------------------------------------------------- case
 
 enum QCode
@@ -198,6 +216,9 @@ enum QCode
     Q_VEC_TO_SLOT,
     Q_SHRINK,
     Q_REENTRANT, // a payload whose destructor resets the pointer that owns it
+    Q_SWAP,      // using std::swap; swap(slot a, slot b)  (what the standard algorithms call)
+    Q_REVERSE,   // std::reverse / std::rotate over the vector
+    Q_CHAIN,     // reset of a payload whose destructor resets another owning pointer
     Q_COUNT
 };
 enum OCode
@@ -250,7 +271,8 @@ static const char* qname(int c)
 {
     static const char* n[] = { "make",     "move_construct", "move_assign", "reset",       "=nullptr",
                                "push_vec", "pop_vec",        "clear_vec",   "read",        "vec_to_slot",
-                               "shrink_to_fit", "reset_of_a_payload_that_resets_its_owner" };
+                               "shrink_to_fit", "reset_of_a_payload_that_resets_its_owner", "swap", "reverse_or_rotate_vec",
+                               "reset_of_a_payload_that_resets_another_pointer" };
     return c >= 0 && c < Q_COUNT ? n[c] : "?";
 }
 static const char* oname(int c)
@@ -264,7 +286,7 @@ static const char* oname(int c)
 std::string describe(const Case& c)
 {
     std::ostringstream o;
-    o << (c.mode == "q" ? "quaint_ptr:" : c.elem ? "optional<type without assignment>:" : "optional:");
+    o << (c.mode == "q" ? "quaint_ptr:" : c.elem == 2 ? "optional<bool>:" : c.elem ? "optional<type without assignment>:" : "optional:");
     for (auto& op : c.ops)
     {
         if (c.mode == "q")
@@ -301,7 +323,7 @@ Case generate(vf::Src& src, const std::string& mode)
         c.mode = src.coin(50) ? "o" : "q";
     int n = ex ? std::atoi(mode.c_str() + 3) : src.irange(1, 40);
     if (c.mode == "o")
-        c.elem = ex ? src.irange(0, 1) : (src.coin(35) ? 1 : 0);
+        c.elem = ex ? src.irange(0, 1) : static_cast<int>(src.weighted({ 50, 30, 20 }));
     for (int i = 0; i < n; ++i)
     {
         if (!ex && src.skip())
@@ -309,7 +331,7 @@ Case generate(vf::Src& src, const std::string& mode)
         Op op;
         if (c.mode == "q")
         {
-            op.code = static_cast<int>(src.weighted({ 25, 10, 18, 7, 5, 12, 4, 2, 8, 6, 3, 2 }));
+            op.code = static_cast<int>(src.weighted({ 25, 10, 18, 7, 5, 12, 4, 2, 8, 6, 3, 2, 6, 4, 2 }));
             op.a = src.irange(0, 3);
             op.b = src.irange(0, 3);
             op.v = src.irange(1, 100000);
@@ -525,6 +547,46 @@ static std::string check_quaint(const Case& c, vf::Ctx& ctx)
                 q.reset();
                 if (q || q.get() != nullptr)
                     err = "pointer is not empty after reset()" + when;
+                break;
+            }
+            case Q_SWAP:
+            {
+                if (a == b)
+                    break;
+                using std::swap;
+                swap(slot[a], slot[b]); // unqualified: finds whatever the library provides for its type
+                std::swap(ms[a], ms[b]);
+                if (ms[a].id && ms[b].id && ms[a].type != ms[b].type)
+                {
+                    nontrivial = true;
+                    ctx.tag("q:swap-of-two-payload-types");
+                }
+                break;
+            }
+            case Q_REVERSE:
+                if (op.v % 2)
+                {
+                    std::reverse(vec.begin(), vec.end());
+                    std::reverse(mv.begin(), mv.end());
+                }
+                else if (vec.size() >= 2)
+                {
+                    std::size_t mid = 1 + static_cast<std::size_t>(op.b) % (vec.size() - 1);
+                    std::rotate(vec.begin(), vec.begin() + static_cast<std::ptrdiff_t>(mid), vec.end());
+                    std::rotate(mv.begin(), mv.begin() + static_cast<std::ptrdiff_t>(mid), mv.end());
+                }
+                ctx.tag("q:reverse-or-rotate-vector");
+                break;
+            case Q_CHAIN:
+            {
+                quaint_ptr q = make_quaint<PA>(op.v);
+                quaint_ptr p = make_quaint<PX>(&q);
+                ctx.tag("q:payload-resets-another-pointer");
+                nontrivial = true;
+                p.reset();
+                if (p || q || q.get() != nullptr)
+                    err = std::string("after the reset of a payload whose destructor resets another pointer, ") +
+                          (p ? "the pointer itself" : "the other pointer") + " is not empty" + when;
                 break;
             }
             case Q_READ:
@@ -797,9 +859,130 @@ static std::string check_optional(const Case& c, vf::Ctx& ctx)
     return err;
 }
 
+// optional<bool>: the one element type an optional itself converts to. Sources are handed over as
+// const lvalues, non-const lvalues and temporaries.
+static std::string check_optional_bool(const Case& c, vf::Ctx& ctx)
+{
+    using Opt = nitro::lang::optional<bool>;
+    std::array<std::unique_ptr<Opt>, 4> slot;
+    std::array<std::optional<bool>, 4> ref;
+    std::size_t step = 0;
+    for (const Op& op : c.ops)
+    {
+        int a = op.a % 4, b = op.b % 4;
+        bool v = op.v % 2 != 0;
+        std::string when = " (optional<bool>, step " + std::to_string(step) + " " + oname(op.code) + " of " + describe(c) + ")";
+        bool needs_target = !(op.code == O_CONSTRUCT_EMPTY || op.code == O_CONSTRUCT_LVALUE ||
+                              op.code == O_CONSTRUCT_RVALUE || op.code == O_COPY_CONSTRUCT);
+        if ((needs_target && !slot[a]) || ((op.code == O_COPY_CONSTRUCT || op.code == O_COPY_ASSIGN) && !slot[b]))
+        {
+            ++step;
+            continue;
+        }
+        switch (op.code)
+        {
+        case O_CONSTRUCT_EMPTY:
+            slot[a].reset(new Opt());
+            ref[a].reset();
+            break;
+        case O_CONSTRUCT_LVALUE:
+            slot[a].reset(new Opt(v));
+            ref[a] = v;
+            break;
+        case O_CONSTRUCT_RVALUE:
+            slot[a].reset(new Opt(bool(v)));
+            ref[a] = v;
+            break;
+        case O_COPY_CONSTRUCT:
+            if (a == b)
+                break;
+            if (op.v % 3 == 0)
+            {
+                const Opt& s = *slot[b];
+                slot[a].reset(new Opt(s));
+            }
+            else if (op.v % 3 == 1)
+            {
+                Opt& s = *slot[b]; // a non-const lvalue
+                slot[a].reset(new Opt(s));
+            }
+            else
+            {
+                Opt tmp(static_cast<const Opt&>(*slot[b]));
+                slot[a].reset(new Opt(std::move(tmp))); // a temporary
+            }
+            ref[a] = ref[b];
+            break;
+        case O_COPY_ASSIGN:
+            if (op.v % 3 == 0)
+            {
+                const Opt& s = *slot[b];
+                *slot[a] = s;
+            }
+            else if (op.v % 3 == 1)
+            {
+                Opt& s = *slot[b];
+                *slot[a] = s;
+            }
+            else
+            {
+                Opt tmp(static_cast<const Opt&>(*slot[b]));
+                *slot[a] = std::move(tmp);
+            }
+            ref[a] = ref[b];
+            break;
+        case O_ASSIGN_LVALUE:
+        case O_ASSIGN_RVALUE:
+            *slot[a] = v;
+            ref[a] = v;
+            break;
+        case O_ASSIGN_EMPTY:
+            *slot[a] = Opt();
+            ref[a].reset();
+            break;
+        default:
+            break;
+        }
+        for (int s = 0; s < 4; ++s)
+        {
+            if (!slot[s])
+                continue;
+            const Opt& o = *slot[s];
+            if (static_cast<bool>(o) != ref[s].has_value())
+                return std::string("o") + std::to_string(s) + " is " + (o ? "engaged" : "empty") + " but the reference is " +
+                       (ref[s].has_value() ? "engaged" : "empty") + when;
+            if (o && *o != *ref[s])
+                return "o" + std::to_string(s) + " holds " + (*o ? "true" : "false") + ", the reference holds " +
+                       (*ref[s] ? "true" : "false") + when;
+            if (!o)
+            {
+                bool raised = false;
+                try
+                {
+                    (void)*o;
+                }
+                catch (const std::exception&)
+                {
+                    raised = true;
+                }
+                if (!raised)
+                    return "reading the empty o" + std::to_string(s) + " did not raise" + when;
+            }
+        }
+        ++step;
+    }
+    ctx.mark_nontrivial();
+    return "";
+}
+
 std::string check(const Case& c, vf::Ctx& ctx)
 {
     ctx.tag("wrapper:" + c.mode);
+    if (c.mode != "q" && c.elem == 2)
+    {
+        ctx.tag("o:element-bool");
+        return check_optional_bool(c, ctx);
+    }
     if (c.mode != "q" && c.elem)
         ctx.tag("o:element-without-assignment");
     return c.mode == "q" ? check_quaint(c, ctx)
